@@ -87,7 +87,7 @@ def gen(rs, tier):
             lo = r.choice([1514764800, 1546300800, 1577836800, 1609459200]) + r.randint(-14 * 3600, 14 * 3600)
         args["start"] = lo if r.random() < 0.8 else None
         args["end"] = (lo + r.randint(0, 20 * 86400)) if r.random() < 0.8 else None
-        args["min_energy"] = r.choice([None, None, 2, 10.5])
+        args["min_energy"] = r.choice([None, None, 2, 10.5, 0, 0.0])
         args["timeseries"] = ts_mode and r.random() < 0.5
         args["arg_zone"] = r.choice(ZONES)
     fault = None
